@@ -18,7 +18,8 @@ EXPLANATION = (
     ' MAP: v6->v4 normalisation (peer addresses, transparent-proxy destinations) is the exact inverse of v4-mapping (to_ipv4_mapped), never Ipv6Addr::to_ipv4.'
     ' WIRE (buffer mode): the SOCKS5 UDP header and the internal address attribute are laid out identically by encoder and decoder.'
     ' UDP-LABEL: datagrams read from a listener-side session socket are labelled with the session target after the receive (Frame::recv_from labels with the source).'
-    ' LENPFX: every length prefix the frame / SOCKS encoders write is a byte length (never a count of characters or items), and within one encoder a prefix is not paired with a variable-length field nobody measured.')
+    ' LENPFX: every length prefix the frame / SOCKS encoders write is a byte length (never a count of characters or items), and within one encoder a prefix is not paired with a variable-length field nobody measured.'
+    ' PORT: every address DnsConfig::lookup_host returns is SocketAddr::new(_, port) with the port it was called with.')
 RULE_TEXT = "instances = casts, validator clauses, tag tables, refusal edges, set_target call sites"
 TRUSTED = ["UDP payloads are <= 65507 bytes (u16 body length in the RPFM header)", "rustc type checking of integer widths"]
 NOT_DECIDED = ["round-trip equality for all strings", "from_utf8_lossy reinterpretation of non-UTF-8 hosts (recorded as finding candidate F17)"]
@@ -230,6 +231,59 @@ def validator_semantics(prog, g):
     return [("1 <= host.len()", lo_ok, lo_why or "every accepting path has the fact len >= 1"),
             ("host.len() <= 253", hi_ok, hi_why or "every accepting path has an upper bound <= 253"),
             ("no byte <= 0x20 and no 0x7f in the host", by_ok, by_why or "predicate truth table (256 values) rejects 0x00..=0x20 and 0x7f on every accepting path")]
+
+
+def rule_lookup_port(chk, prog, rule="PORT"):
+    """The resolver turns (host, port) into a socket address: whatever it does with the host, the port of every address it returns is
+    the port it was given -- the one the client asked for and the rules were evaluated on.  In `DnsConfig::lookup_host` every successful
+    return value is built by `SocketAddr::new(<ip>, port)` from the function's own u16 parameter; an address that comes out of a
+    parser (`"1.2.3.4:22".parse::<SocketAddr>()`) carries a port chosen by the host text."""
+    from ..flow import result_blocks
+    from .panics import canon
+    outer = prog.find(r"^common::dns::DnsConfig::lookup_host$", "redproxy_rs")
+    if len(outer) != 1:
+        chk.anchor_missing(rule, "DnsConfig::lookup_host")
+        return
+    o = outer[0]
+    g = prog.body_of(o)
+    ports = [i for i in range(1, o.arg_count + 1) if o.local_ty(i)["k"] == "u16"]
+    if len(ports) != 1:
+        chk.anchor_missing(rule, "the u16 port parameter of lookup_host")
+        return
+    k = ports[0]
+    # the parameter inside the body: the argument itself (plain fn) or the copy of capture f:<k-1> (async fn)
+    plocals = set()
+    if g is o:
+        plocals.add(k)
+    else:
+        for b in g.reachable:
+            for st in g.stmts(b):
+                if st["k"] == "assign" and len(st["lhs"]) == 1 and st["rv"]["k"] == "use":
+                    pl = op_place(st["rv"]["a"])
+                    if pl and pl[0] == 1 and [x for x in pl[1:] if x != "*"] == ["f:%d" % (k - 1)]:
+                        plocals.add(st["lhs"][0])
+    psyms = set(canon(g, {"c": [l]}) for l in plocals)
+    n = 0
+    bad = []
+    for b in result_blocks(g, "Ok"):
+        for st in g.stmts(b):
+            if st["k"] == "assign" and st["lhs"] == [0] and st["rv"]["k"] == "agg" and st["rv"].get("variant") == "Ok" and st["rv"]["ops"]:
+                n += 1
+                l = op_base(st["rv"]["ops"][0])
+                tr = g.trace(l) if l is not None else []
+                mk = [info for kk, info in tr if kk == "call" and re.search(r"net::socket_addr::SocketAddr::new$", info.path or "")]
+                okb = bool(mk) and len(mk[0].args) > 1 and canon(g, mk[0].args[1]) in psyms
+                if not okb:
+                    bad.append(b)
+    ok = n >= 1 and bool(plocals) and not bad
+    chk.instance(rule, "%s:%s" % (g.file, g.line), "every address lookup_host returns carries the port it was given", ok,
+                 "%d successful return(s), %d not built as SocketAddr::new(_, port)" % (n, len(bad)))
+    if not ok:
+        chk.finding(rule, g.key, "returned-port", "", "%s:%s" % (g.file, g.line),
+                    "DnsConfig::lookup_host can return an address whose port is not the port it was called with (%d of %d successful returns are "
+                    "not SocketAddr::new(_, port)): a host text such as `10.0.0.1:22` then decides the port the direct connector dials, while "
+                    "the rules saw the port field of the request" % (len(bad), n))
+
 
 
 def run(chk, prog):
@@ -463,6 +517,7 @@ def run(chk, prog):
     shared.rule_wire(chk, prog, rule="WIRE", which=("UDP5", "ADDR"))
     # a host name travels as length byte + bytes: the length written must be the byte length of what is written after it
     shared.rule_lenpfx(chk, prog, "LENPFX")
+    rule_lookup_port(chk, prog)
 
     # ------------------------------------------------------------------ UDP-LABEL: datagrams of a listener-side session keep the session target
     from . import c10 as _c10
